@@ -15,6 +15,10 @@ def _reexec_with_hashseed() -> None:
 
 
 def main(argv=None) -> int:
+    alt = os.environ.get("NIMASIM_REPO")
+    if alt:
+        # sensitivity self-test: run against a mutated scratch copy of the package
+        sys.path.insert(0, alt)
     ap = argparse.ArgumentParser(prog="nimasim")
     sub = ap.add_subparsers(dest="cmd", required=True)
     sub.add_parser("setup")
